@@ -74,10 +74,10 @@ def ctl : Controller Ctl :=
         let c := if last then
             { c with textAcc := none, log := s!"X:{acc.1}-{acc.2.1}:{ttNum acc.2.2.1}:{hexOrDash acc.2.2.2}" :: c.log }
           else { c with textAcc := some acc }
-        (c, .ok { chunks := if b.isEmpty then [] else [b] })
-      | t => ({ c with log := tokenStr t :: c.log }, .ok { chunks := [t.raw] })
+        (c, { chunks := if b.isEmpty then [] else [b] })
+      | t => ({ c with log := tokenStr t :: c.log }, { chunks := [t.raw] })
     shouldEmit := fun _ => true
-    handleEnd := fun c => (c, .ok [])
+    handleEnd := fun c => (c, [], none)
     bailOut := fun c _ => (c, []) }
 
 def world : World Ctl := ⟨Gen.Syntax.table, Gen.Tags.cfg, ctl⟩
